@@ -84,7 +84,7 @@ def _check_stats(res, label, x, y_orig, ec, got, feats):
         res.fail(kind, f"[{label}] {detail}", **feats)
 
     # --- max / min
-    for name, target, better in (("max", ymax, lambda a, b: a >= b), ("min", ymin, lambda a, b: a <= b)):
+    for name, target in (("max", ymax), ("min", ymin)):
         rep = got.get(name)
         try:
             rx, ry = float(rep[0]), float(rep[1])
@@ -179,7 +179,8 @@ def _check_stats(res, label, x, y_orig, ec, got, feats):
         if fv is None or fv != fv or abs(fv - want) > 2 * tol_x:
             fail("fwhm_mismatch", f"fwhm = {fwhm!r} but the outermost crossings {min(cr)!r} and {max(cr)!r} are {want!r} apart")
     elif fwhm is not None:
-        fail("fwhm_without_two_crossings", f"fwhm = {fwhm!r} with {len(cr)} crossing(s)")
+        # the statement only defines fwhm through two outermost crossings; anything else is just recorded
+        res.classes.append(f"{label}:fwhm-reported-with-<2-crossings")
     return {"n_cross": len(cr), "constant": ymax - ymin <= tol_y}
 
 
@@ -193,10 +194,10 @@ def check_case(case) -> Result:
     ec = case.get("edge_count")
     deriv = bool(case.get("derivative"))
     n = len(x)
-    if len(y) != n or any(b == a for a, b in zip(x, x[1:])):
+    if len(y) != n or any(b == a for a, b in zip(x, x[1:])) or any(v != 0 and not (1e-50 <= abs(v) <= 1e50) for v in y):
         from ..core import HarnessError
 
-        raise HarnessError(f"malformed case (x not strictly monotonic or length mismatch): {case}")
+        raise HarnessError(f"case outside the domain (x not strictly monotonic, length mismatch or |y| outside 0/[1e-50,1e50]): {case}")
     res = Result()
     feats = {
         "n": n,
@@ -306,6 +307,8 @@ def _strategy():
                 w = draw(st.floats(0.3, max(0.5, n / 8)))
                 shape = [sum(math.exp(-((i - c) ** 2) / (2 * w * w)) for c in cs) for i in idx]
             y = [sign * amp * s + slope * i + off + nz * amp * e for i, s, e in zip(idx, shape, noise)]
+        # keep y inside the stated magnitude domain ({0} or [1e-50, 1e50]): slopes of subnormal data underflow
+        y = [0.0 if abs(v) < 1e-50 else max(-1e50, min(1e50, v)) for v in y]
         max_ec = (n - (1 if deriv else 0) - 1) // 2  # edge_count < n/2 for every evaluated series
         ec = None
         if max_ec >= 1 and draw(st.booleans()):
@@ -326,7 +329,7 @@ def _strategy():
 def run(ctx):
     import bluesky.callbacks.fitting  # noqa: F401  (import once; forked workers inherit it)
 
-    ctx.hyp(_strategy, check_case, max_examples=ctx.pick(4000, 120000))
+    ctx.hyp(_strategy, check_case, max_examples=ctx.pick(4000, 150000))
 
 
 def replay(case):
